@@ -61,6 +61,7 @@ func H_WrongAsset_ShortQuery() { wrongAsset(1, 4, 3, 2, 1) }
 func H_WrongAsset_Long() { wrongAsset(3, 6, 2, 4, 3) }
 
 // newest of the same asset and source wins
+//
 //vrf:cover found
 //vrf:bound 2 prices of one asset from one source at symbolic distinct timestamps
 func H_Newest() {
@@ -82,6 +83,7 @@ func H_Newest() {
 }
 
 // source preference: elys, then band, then any
+//
 //vrf:cover found
 //vrf:bound 3 prices of one asset from elys/band/other, each present or absent (symbolic), symbolic timestamps
 func H_Preference() {
@@ -113,6 +115,7 @@ func H_Preference() {
 }
 
 // after EndBlock no returned price is expired by either rule
+//
 //vrf:cover found expired-gone
 //vrf:bound 2 prices of one asset (elys, band), symbolic timestamps/heights/expiry params < 2^40
 func H_Expiry() {
@@ -144,6 +147,7 @@ func H_Expiry() {
 }
 
 // a denom without asset info, or without a live price, yields zero
+//
 //vrf:cover no-info no-price priced
 func H_NoPrice() {
 	env := wire.New(wire.Opts{})
@@ -172,6 +176,7 @@ func H_NoPrice() {
 }
 
 // only a registered and active feeder can write a price
+//
 //vrf:cover refused accepted
 //vrf:bound FeedPrice and FeedMultiplePrices (1 price); feeder record absent / inactive / active (symbolic)
 func H_FeederGuard() {
@@ -203,4 +208,110 @@ func H_FeederGuard() {
 	}
 	vrf.Cover("accepted")
 	vrf.Assert(err == nil, "C16: active feeder accepted")
+}
+
+// a feed accepted from an active feeder becomes the newest record of its asset and source: it carries the block time
+// and height of the feed (which is what expiry is counted from), whatever the feeder had fed before - a different
+// value, the same value, or nothing - and the look-up serves it
+//
+//vrf:cover fed
+//vrf:bound 1 active feeder; an earlier record of the same asset / source from the same or another provider with a symbolic price (equal to the new one included) at a symbolic earlier time, or none; FeedPrice and FeedMultiplePrices (1 price); then the end blocker with symbolic expiry params
+func H_Refeed_IsNewest() {
+	env := wire.New(wire.Opts{})
+	k := env.Oracle
+	now := vrf.I64("now", 2, maxT)
+	height := vrf.I64("height", 2, maxT)
+	ctx := vrf.SetBlock(env.Ctx, height, now)
+	p := otypes.DefaultParams()
+	p.PriceExpiryTime = vrf.U64("expiry", 0, maxT)
+	p.LifeTimeInBlocks = vrf.U64("life", 0, maxT)
+	k.SetParams(ctx, p)
+	feeder := sdk.AccAddress([]byte("feeder______________"))
+	other := sdk.AccAddress([]byte("other_feeder________"))
+	k.SetPriceFeeder(ctx, otypes.PriceFeeder{Feeder: feeder.String(), IsActive: true})
+	newPrice := vrf.Dec("newPrice")
+	vrf.Assume(newPrice.IsPositive())
+	if vrf.Bool("earlierRecord") {
+		old := vrf.Dec("oldPrice")
+		vrf.Assume(old.IsPositive())
+		t0, h0 := vrf.U64("t0", 1, maxT), vrf.U64("h0", 1, maxT)
+		vrf.Assume(t0 < uint64(now))
+		vrf.Assume(h0 < uint64(height))
+		prov := feeder.String()
+		if vrf.Bool("otherProvider") {
+			prov = other.String()
+		}
+		k.SetPrice(ctx, otypes.Price{Asset: "ATOM", Source: otypes.ELYS, Price: old, Provider: prov, Timestamp: t0, BlockHeight: h0})
+	}
+	srv := okeeper.NewMsgServerImpl(*k)
+	var err error
+	if vrf.Bool("multi") {
+		_, err = srv.FeedMultiplePrices(ctx, &otypes.MsgFeedMultiplePrices{Creator: feeder.String(),
+			FeedPrices: []otypes.FeedPrice{{Asset: "ATOM", Price: newPrice, Source: otypes.ELYS}}})
+	} else {
+		_, err = srv.FeedPrice(ctx, &otypes.MsgFeedPrice{Provider: feeder.String(),
+			FeedPrice: otypes.FeedPrice{Asset: "ATOM", Price: newPrice, Source: otypes.ELYS}})
+	}
+	vrf.Assert(err == nil, "C16: active feeder accepted")
+	if err != nil {
+		return
+	}
+	vrf.Cover("fed")
+	got, found := k.GetLatestPriceFromAssetAndSource(ctx, "ATOM", otypes.ELYS)
+	vrf.Assert(found, "C16: an accepted feed is on record")
+	if found {
+		vrf.Assert(got.Timestamp == uint64(now) && got.BlockHeight == uint64(height), "C16: the newest record of a fed asset carries the time and height of the latest accepted feed")
+		vrf.Assert(got.Price.Equal(newPrice), "C16: the newest record carries the fed value")
+	}
+	// the block ends: a price fed in this very block is live whatever the expiry parameters are
+	k.EndBlock(ctx)
+	served, ok := k.GetAssetPrice(ctx, "ATOM")
+	vrf.Assert(ok, "C16: a price fed in this block is still served after the block's expiry pass")
+	if ok {
+		vrf.Assert(served.Timestamp == uint64(now), "C16: the served price is the most recently fed one")
+	}
+}
+
+// the price-feeder set is governance's: after governance removed an account from it (or never admitted it), nothing
+// that account sends on its own - switching itself on or off, deleting itself, feeding - makes it a feeder again
+//
+//vrf:cover removed-stays-out never-admitted-stays-out
+//vrf:bound 1 account whose feeder record is absent / inactive / active (symbolic); optionally governance's MsgRemovePriceFeeders naming it; then up to two self-service messages of the account (SetPriceFeeder with a symbolic flag, DeletePriceFeeder) and a feed
+func H_FeederSet_GovernanceOnly() {
+	env := wire.New(wire.Opts{})
+	ctx, k := env.Ctx, env.Oracle
+	feeder := sdk.AccAddress([]byte("feeder______________"))
+	registered, active := vrf.Bool("registered"), vrf.Bool("active")
+	if registered {
+		k.SetPriceFeeder(ctx, otypes.PriceFeeder{Feeder: feeder.String(), IsActive: active})
+	}
+	srv := okeeper.NewMsgServerImpl(*k)
+	removed := vrf.Bool("governanceRemoves")
+	if removed {
+		_, err := srv.RemovePriceFeeders(ctx, &otypes.MsgRemovePriceFeeders{Authority: wire.Gov, Feeders: []string{feeder.String()}})
+		vrf.Assert(err == nil, "C17: governance can remove a price feeder")
+	}
+	if registered && !removed {
+		return // still a member of the set: what it may do is H_FeederGuard's subject
+	}
+	for i := 0; i < 2; i++ {
+		switch vrf.I64("selfService"+string(rune('1'+i)), 0, 2) {
+		case 0:
+			srv.SetPriceFeeder(ctx, &otypes.MsgSetPriceFeeder{Feeder: feeder.String(), IsActive: vrf.Bool("flag" + string(rune('1'+i)))})
+		case 1:
+			srv.DeletePriceFeeder(ctx, &otypes.MsgDeletePriceFeeder{Feeder: feeder.String()})
+		}
+	}
+	_, err := srv.FeedPrice(ctx, &otypes.MsgFeedPrice{Provider: feeder.String(),
+		FeedPrice: otypes.FeedPrice{Asset: "ATOM", Price: sdkmath.LegacyNewDec(9), Source: otypes.ELYS}})
+	if removed {
+		vrf.Cover("removed-stays-out")
+	} else {
+		vrf.Cover("never-admitted-stays-out")
+	}
+	vrf.Assert(err != nil, "C17/C16: an account that governance removed from (or never admitted to) the price-feeder set cannot feed a price, whatever it sends itself")
+	f, found := k.GetPriceFeeder(ctx, feeder)
+	vrf.Assert(!found || !f.IsActive, "C17/C16: only governance adds an active price feeder")
+	_, has := k.GetAssetPrice(ctx, "ATOM")
+	vrf.Assert(!has, "C17/C16: no price was written by the removed account")
 }
